@@ -14,7 +14,7 @@ RULE = (
     "cycle-closing and unknown endpoints, remove_node(s), add_cpds consistent / stale / foreign scope / replacing, "
     "remove_cpds by object and by name, do in and out of place, copy into a pool of live siblings, get_random_cpds, "
     "check_model, queries; node names str / int / tuple), DAG and BayesianNetwork construction from edge lists, "
-    "DynamicBayesianNetwork (edges within a slice, to the next slice, backwards, over several slices, malformed; "
+    "DynamicBayesianNetwork (edges within a slice - written at slice 0, 1 or a later one -, to the next slice, backwards, over several slices, malformed; "
     "copy), MarkovNetwork and JunctionTree (edges closing cycles or joining disjoint cliques, factors, copy). After "
     "every step: acyclicity, real == model for every live sibling (nodes, edges, latents, CPDs by named "
     "assignment), a rejected single-element operation leaves the object unchanged, CPDs after remove_node / do are "
@@ -492,7 +492,7 @@ def check_ctor(case, out):
 
 
 # ---------------------------------------------------------------------------------------------- snapshot machines
-DOPS = ["add_node", "edge_same", "edge_same", "edge_next", "edge_next", "edge_back", "edge_far", "edge_bad", "copy", "copy_edit", "add_cpd"]
+DOPS = ["add_node", "edge_same", "edge_same_late", "edge_next", "edge_next", "edge_same", "edge_next_late", "edge_back", "edge_far", "edge_bad", "copy", "copy_edit", "add_cpd"]
 
 
 @st.composite
@@ -527,6 +527,13 @@ def run_dbn(case, out):
             call = lambda: g.add_edge((u, t), (v, t))  # noqa: E731
         elif op == "edge_next":
             call = lambda: g.add_edge((u, 0), (v, 1))  # noqa: E731
+        elif op == "edge_same_late":
+            # an intra-slice edge written at a later slice is legal and is folded onto slices 0/1
+            t = 2 + s["t"]
+            call = lambda: g.add_edge((u, t), (v, t))  # noqa: E731
+        elif op == "edge_next_late":
+            t = 1 + s["t"]
+            call = lambda: g.add_edge((u, t), (v, t + 1))  # noqa: E731
         elif op == "edge_back":
             call = lambda: g.add_edge((u, 1), (v, 0))  # noqa: E731
             expect = "raise"
